@@ -37,6 +37,7 @@ import (
 	"strconv"
 	"strings"
 	"sync"
+	"sync/atomic"
 	"time"
 
 	api "k8s.io/api/core/v1"
@@ -275,6 +276,8 @@ func c18Host(i int) string { return fmt.Sprintf("h%d.local", i) }
 
 var c18Debug = os.Getenv("C18_DEBUG") != ""
 
+var c18EnvSeq atomic.Int64
+
 // C18_SAMPLE=n: debugging aid, sample order-sensitive scenarios until n quiet runs and print the histogram
 var c18Sample, _ = strconv.Atoi(os.Getenv("C18_SAMPLE"))
 
@@ -290,23 +293,22 @@ type c18Env struct {
 	opts     *convtypes.ConverterOptions
 	global   map[string]string
 	parsed   bool
+	dirs     bool // scratch directories created (on the first render)
 }
 
-func (e *c18Env) close() { os.RemoveAll(e.tmp) }
+func (e *c18Env) close() {
+	if e.dirs {
+		os.RemoveAll(e.tmp)
+	}
+}
 
 // c18NewEnv: pads = number of padding services (see c18Run)
 func c18NewEnv(sc *c18Scenario, pads int) (*c18Env, error) {
 	e := &c18Env{logger: &c18Logger{}}
 	e.trk = tracker.NewTracker()
 	e.cache = conv_helper.NewCacheMock(e.trk)
-	tmp, err := os.MkdirTemp("", "c18cfg")
-	if err != nil {
-		return nil, err
-	}
+	tmp := filepath.Join(os.TempDir(), fmt.Sprintf("c18cfg-%d-%d", os.Getpid(), c18EnvSeq.Add(1)))
 	e.tmp = tmp
-	for _, d := range []string{"etc", "etc/lua", "etc/errorfiles", "maps", "var"} {
-		os.MkdirAll(filepath.Join(tmp, d), 0o755)
-	}
 	e.instance = haproxy.CreateInstance(e.logger, haproxy.InstanceOptions{
 		RootFSPrefix:    "/repo/rootfs",
 		LocalFSPrefix:   tmp,
@@ -438,6 +440,14 @@ func (e *c18Env) binds() string {
 // render: what a reconciliation does after the converters ran — instance.HAProxyUpdate (sync, shrink,
 // write, commit) — and the sections of the configuration file on disk
 func (e *c18Env) render() (map[string][]string, error) {
+	if !e.dirs {
+		e.dirs = true
+		for _, d := range []string{"etc", "etc/lua", "etc/errorfiles", "maps", "var"} {
+			if err := os.MkdirAll(filepath.Join(e.tmp, d), 0o755); err != nil {
+				return nil, err
+			}
+		}
+	}
 	if !e.parsed {
 		if err := e.instance.ParseTemplates(); err != nil {
 			return nil, err
